@@ -39,12 +39,16 @@ def r3_1(ctx):
                "`bestmove` text %s in %s; only the two reply functions may print it (never the search)" % (sorted({t for _, t in lst}), fn))
     ctx.floor("functions printing bestmove", len(pr), 1)
     # templates: bestmove {}{} and bestmove {}{}{}
-    if SBM in pr:
-        ts = sorted({tmpl for _, tmpl, _, _, _ in _bestmove_lines(f, f.body(SBM))})
-        ctx.ob("send_best_move_to_gui:templates", ts == ["bestmove {}{}", "bestmove {}{}{}"], f.body(SBM).file, "rendered templates %s" % ts)
+    # the function that formats the move line: the reply helper, or find_and_play_best_move itself
+    # when the (single-use) helper's body lives there
+    from wa import strsym
+    sbn = SBM if f.has_body(SBM) else FIND
+    if sbn in pr:
+        ts = sorted({tmpl for _, tmpl, _, _, _ in _bestmove_lines(f, f.body(sbn))})
+        ctx.ob("send_best_move_to_gui:templates", ts == ["bestmove {}{}", "bestmove {}{}{}"], f.body(sbn).file, "rendered templates %s" % ts)
     # exactly one reply on every path of find_and_play_best_move
     b = f.body(FIND)
-    ctx.note_fn(FIND, SBM)
+    ctx.note_fn(FIND, sbn)
     ex = Exprs(b)
     prints = {}
     for bb, t in b.iter_calls():
@@ -52,9 +56,10 @@ def r3_1(ctx):
         if c == SBM:
             prints[b.term_loc(bb)] = "send_best_move_to_gui"
         elif c == SEND:
-            a = strip_refs(ex.call_args(bb)[0])
-            if a[0] == "str" and a[1].startswith("bestmove"):
-                prints[b.term_loc(bb)] = a[1]
+            # what is sent, rendered: a literal or a formatted text that begins with `bestmove`
+            pcs = strsym.flatten(ex, ex.call_args(bb)[0])
+            if pcs and pcs[0][0] == "lit" and pcs[0][1].startswith("bestmove"):
+                prints[b.term_loc(bb)] = pcs[0][1]
 
     def step(loc, s):
         if loc in prints:
@@ -69,10 +74,13 @@ def r3_1(ctx):
     # alg(pawn_promotion.kind) exactly when pawn_promotion is Some.  The lines are *rendered*
     # (wa/strsym.py): a letter chosen by if/else, by `map_or("", ..)` or by two separate format!
     # calls gives the same two cases.
-    sb = f.body(SBM)
-    before_s, at_ret_s = forward_states(sb, (0, -1), {0}, lambda loc, st: [min(st + 1, 3)] if (
-        loc[1] == len(sb.stmts(loc[0])) and sb.term(loc[0])["k"] == "call" and callee_of(sb.term(loc[0])) == SEND) else [st], restart_kills=False)
-    once = bool(at_ret_s) and all(sts == {1} for sts in at_ret_s.values())
+    sb = f.body(sbn)
+    if sbn == SBM:
+        before_s, at_ret_s = forward_states(sb, (0, -1), {0}, lambda loc, st: [min(st + 1, 3)] if (
+            loc[1] == len(sb.stmts(loc[0])) and sb.term(loc[0])["k"] == "call" and callee_of(sb.term(loc[0])) == SEND) else [st], restart_kills=False)
+        once = bool(at_ret_s) and all(sts == {1} for sts in at_ret_s.values())
+    else:
+        once = bool(at_ret) and all(sts == {1} for sts in at_ret.values())     # the one-reply count above
     lines = _bestmove_lines(f, sb)
     seen = set()
     for promo, tmpl, holes, where, pe in lines:
@@ -177,10 +185,15 @@ def r3_35(ctx):
             ctx.ob("find_and_play_best_move:returns#%d" % n, from_input, fb.where(fb.term_loc(bb)), "returns `%s`" % show_expr(e, fb)[:70])
     ctx.floor("return values of find_and_play_best_move", n, 1)
     # the board printed is the board returned
+    rets = [strip_refs(fex.rvalue(st["rv"], loc)) for loc, st in fb.iter_stmts() if st["k"] == "assign" and st["place"]["local"] == 0 and not st["place"]["proj"]]
     for bb, t in fb.iter_calls(callee=SBM):
         a = strip_refs(fex.call_args(bb)[0])
-        rets = [strip_refs(fex.rvalue(st["rv"], loc)) for loc, st in fb.iter_stmts() if st["k"] == "assign" and st["place"]["local"] == 0 and not st["place"]["proj"]]
         ctx.ob("find_and_play_best_move:prints-what-it-returns", a in rets, fb.where(fb.term_loc(bb)), "the move printed belongs to the board that becomes the current position")
+    if not f.has_body(SBM):
+        # the move line is formatted here: the board whose last_move is printed must be the one returned
+        for promo, tmpl, holes, where, pe in _bestmove_lines(f, fb):
+            boards_ = {strip_refs(x[1]) for ty, h in holes[:2] for x in subexprs(h) if x[0] == "field" and x[2] == "last_move"}
+            ctx.ob("find_and_play_best_move:prints-what-it-returns", bool(boards_) and boards_ <= set(rets), where, "the move printed belongs to the board that becomes the current position")
 
 
 def exits_anywhere(b, start, header):
